@@ -598,6 +598,17 @@ func judgeFlow(r *vf.Run, c *caseSpec, fi int, f *flowSpec, res *flowResult, dst
 			return false
 		}
 	}
+	if len(f.pkts) > 1 {
+		// the interleaving of the concurrent writers as observed by the reader
+		var order []byte
+		for _, rr := range res.reads {
+			if rr.err == nil && len(rr.data) > 0 {
+				order = append(order, '0'+rr.data[0])
+			}
+		}
+		r.Distinct("writer_interleavings", string(order))
+		r.Count("multi_writer_flows", 1)
+	}
 	r.Count(T+"_packets_delivered_checked", delivered)
 	if f.inj != nil && f.inj.after >= 0 {
 		r.Count(T+"_ended_on_"+f.inj.kind, 1)
